@@ -223,6 +223,32 @@ func (vc *FuncVC) addrEscapes(v ssa.Value, seen map[ssa.Value]bool) bool {
 	return false
 }
 
+// rootFreeVar: the captured variable an address is derived from, if any.
+func rootFreeVar(v ssa.Value) *ssa.FreeVar {
+	for {
+		switch x := v.(type) {
+		case *ssa.FieldAddr:
+			v = x.X
+		case *ssa.IndexAddr:
+			v = x.X
+		case *ssa.FreeVar:
+			return x
+		default:
+			return nil
+		}
+	}
+}
+
+// assignsNames: the function's assigns clause names the captured variable.
+func (vc *FuncVC) assignsNames(name string) bool {
+	for _, d := range vc.C.Assigns {
+		if d == name || d == "\\everything" {
+			return true
+		}
+	}
+	return false
+}
+
 // localSuffix returns "#L<alloc>" when the address is derived from a non-escaping local.
 func (vc *FuncVC) localSuffix(v ssa.Value) string {
 	for {
@@ -464,6 +490,11 @@ func (vc *FuncVC) exec(in ssa.Instruction) {
 		vc.execBinOp(x)
 	case *ssa.Store:
 		vc.checkNonNil(x.Addr, "store")
+		if fv := rootFreeVar(x.Addr); fv != nil && vc.C != nil && vc.C.HasAssgn && !vc.assignsNames(fv.Name()) {
+			// a closure under an assigns clause writes a variable it shares with its creator (and
+			// with every other invocation of itself) without naming it
+			vc.oblige("frame", "frame.captured."+fv.Name(), vc.g(), tFalse, "store to the captured variable "+fv.Name()+", which the assigns clause does not name")
+		}
 		vc.cur = vc.store(vc.cur, x.Addr, vc.term(x.Val))
 		if vc.localSuffix(x.Addr) == "" {
 			vc.publish(vc.term(x.Val), x.Val.Type())
